@@ -456,4 +456,74 @@ theorem getLast?_append_ne_nil {β : Type} (l₁ l₂ : List β) (h : l₂ ≠ [
   | none => rw [List.getLast?_eq_none_iff] at h2; exact absurd h2 h
   | some x => simp
 
+/-! ### the executable rules of `Spec/C20.lean` -/
+
+section oracle
+variable (mid : α → α → α)
+
+theorem quads_length (o : List α) (e : α) : (quads mid o e).length = max 1 o.length := by
+  induction o with
+  | nil => simp [quads]
+  | cons a r ih =>
+    cases r with
+    | nil => simp [quads]
+    | cons b r' => simp only [quads, List.length_cons] at ih ⊢; omega
+
+theorem specEls_length (s : List α × Pt α) (h : SegGood s) : (specEls mid s).length = segWidth s := by
+  obtain ⟨o, p⟩ := s
+  obtain ⟨⟨hl, hc⟩, hoff, hmv⟩ := h
+  unfold specEls segWidth
+  simp only at hl hc hoff hmv ⊢
+  cases ht : p.typ with
+  | move => exact absurd ht hmv
+  | off => exact absurd ht hoff
+  | line => simp
+  | qcurve => simpa using quads_length mid o p.pos
+  | curve =>
+    have := hc ht
+    match o, this with
+    | [], _ => simp
+    | [a], _ => simp
+    | [a, b], _ => simp
+    | _ :: _ :: _ :: _, h3 => simp at h3
+
+theorem chunks_flatMap {β γ : Type} (l : List β) (f : β → List γ) (w : β → Nat)
+    (h : ∀ x ∈ l, (f x).length = w x) : chunks (l.map w) (l.flatMap f) = some (l.map f) := by
+  induction l with
+  | nil => simp [chunks]
+  | cons x xs ih =>
+    have hx := h x (by simp)
+    have := ih (fun y hy => h y (by simp [hy]))
+    simp only [List.map_cons, List.flatMap_cons, chunks, List.length_append]
+    rw [if_neg (by omega), ← hx, List.drop_left, this, List.take_left]
+
+theorem isSublist_of_sublist [DecidableEq α] (a b : List α) (h : List.Sublist a b) : isSublist a b = true := by
+  induction b generalizing a with
+  | nil => simp at h; subst h; simp [isSublist]
+  | cons y bs ih =>
+    cases a with
+    | nil => simp [isSublist]
+    | cons x as =>
+      simp only [isSublist]
+      by_cases hxy : x = y
+      · subst hxy
+        simp only [if_true]
+        exact ih as (List.cons_sublist_cons.1 h)
+      · simp only [hxy, if_false]
+        apply ih
+        cases h with
+        | cons _ h' => exact h'
+        | cons_cons _ h' => exact absurd rfl hxy
+
+
+theorem length_flatMap_eq {β γ : Type} (l : List β) (f : β → List γ) (w : β → Nat)
+    (h : ∀ x ∈ l, (f x).length = w x) : (l.flatMap f).length = (l.map w).sum := by
+  induction l with
+  | nil => simp
+  | cons x xs ih =>
+    simp only [List.flatMap_cons, List.length_append, List.map_cons, List.sum_cons]
+    rw [h x (by simp), ih (fun y hy => h y (by simp [hy]))]
+
+end oracle
+
 end C20
